@@ -12,7 +12,7 @@ def verdict(plan, text):
     toks = vspec.tokens_of_text(text)
     r = vspec.evaluate(plan['spec'], toks, 'main')
     if r['fault']:
-        run = (None, None, None) if r['fault'] in 'stpaw' else (-11 if r['fault'] == 'v' else -9, '', '')
+        run = (None, None, None) if r['fault'] in 'stpamw' else (-11 if r['fault'] == 'v' else -9, '', '')
     else:
         run = (r['exit'], r['out'], r['err'])
     run_cc = golden_cc = None
@@ -23,9 +23,9 @@ def verdict(plan, text):
     return rule.accepts_opts(plan['opts'], tuple(plan['golden']), run, golden_cc, run_cc)
 
 
-def enabled_mutators():
+def enabled_mutators(enabled=None):
     from ddsmt import mutators, options
-    a = vars(options.args())
+    a = enabled if enabled is not None else vars(options.args())
     out = []
     for theory, (mod, muts) in mutators.get_all_mutators().items():
         for cname, opt in muts.items():
@@ -34,10 +34,10 @@ def enabled_mutators():
     return out
 
 
-def enumerate_proposals(exprs, plan, workdir, apply_simp, limit=20000):
+def enumerate_proposals(exprs, plan, workdir, apply_simp, limit=20000, enabled=None):
     from ddsmt import nodes, nodeio, smtlib
     smtlib.collect_information(exprs)
-    muts = [(n, c()) for n, c in enabled_mutators()]
+    muts = [(n, c()) for n, c in enabled_mutators(enabled)]
     fn = os.path.join(workdir, 'fixpoint-candidate.smt2')
     res = dict(nodes=0, proposals=0, per_mutator={}, accepted=[], raised={}, unrenderable=0,
                mutators=[n for n, _ in muts], truncated=False)
